@@ -32,6 +32,21 @@ class AbstractInput:
         return "<%s>" % self.kind
 
 
+class ObjVec:
+    """std::vector of class objects"""
+
+    def __init__(self, cls, name):
+        self.cls = cls
+        self.name = name
+        self.items = []
+
+    def __repr__(self):
+        return "ObjVec(%s x %d)" % (self.cls, len(self.items))
+
+
+SOLVER_CLASSES = ("SymmetricTridiagonalSolver<double>", "DiagonalSolver<double>", "SparseLUSolver<double>")
+
+
 class Effect:
     __slots__ = ("arr", "idx", "w", "site", "phase", "it", "repl")
 
@@ -63,6 +78,8 @@ class OpsDomain(SymDomain):
         self.unknown_omp = []
         self.seq_effects = []
         self.solver_calls = []
+        self.solve_no = 0
+        self.lu_dim = None
 
     # ------------------------------------------------------------ threads
     def num_threads(self):
@@ -179,13 +196,90 @@ class OpsDomain(SymDomain):
         if not nowait:
             r.group += 1
 
+    # ------------------------------------------------------------ vectors of objects / solver summaries
+    def field_default(self, t, name):
+        import re
+        m = re.match(r"^(const\s+)?std::vector<\s*((SymmetricTridiagonalSolver|DiagonalSolver)<double>)\s*>", t.strip())
+        if m:
+            return ObjVec(m.group(2), name)
+        if t.strip().replace("const ", "") in SOLVER_CLASSES or t.strip().startswith("SparseMatrixCSR<double>"):
+            return self.new_object(t.strip().replace("const ", ""), None, None)
+        return SymDomain.field_default(self, t, name)
+
+    def make_default(self, cls):
+        o = self.new_object(cls, None, None)
+        short = cls.split("<")[0]
+        c = [f for f in self.prog.fns("%s::%s" % (cls, short)) if len(f["params"]) == 0]
+        if c:
+            self.interp.call_function(c[0], o, [])
+        return o
+
+    def solver_summary(self, obj, mname, args, e, fr):
+        """footprint summary of a line / LU solve (DESIGN 3.3): reads and writes rhs[off..off+n), writes the scratch
+        vectors, reads+writes the solver object (first solve factorises). The solution becomes fresh unknowns."""
+        site = ir.locstr(e)
+        p = args[0]
+        if isinstance(p, SArr):
+            p = PtrInto(p, 0)
+        if not isinstance(p, PtrInto):
+            raise AnalysisBroken("solveInPlace argument is not a pointer into a vector at %s" % site)
+        if obj.cls.startswith("SparseLUSolver"):
+            n = self.lu_dim
+        else:
+            n = obj.f["matrix_dimension_"].get()
+        if not isinstance(n, int):
+            raise AnalysisBroken("solver dimension unknown at %s" % site)
+        arr = p.arr
+        state = getattr(obj, "_state_arr", None)
+        if state is None:
+            state = obj._state_arr = Arr("solver-state:%s" % obj.cls, 1)
+        self.on_read(state, 0, site)
+        self.on_write(state, 0, site)
+        rows = {}
+        for i in range(n):
+            rows[i] = symdom.SElem(arr, p.off + i, self, site).get()
+        for s_ in args[1:]:
+            if isinstance(s_, SArr):
+                s_ = PtrInto(s_, 0)
+            if isinstance(s_, PtrInto):
+                for i in range(n):
+                    self.on_write(s_.arr, s_.off + i, site)
+        self.solve_no += 1
+        call = {"solver": obj, "kind": obj.cls, "arr": arr, "off": p.off, "n": n, "rows": rows, "site": site, "seq": self.solve_no,
+                "group": (len(self.regions), self.region.group) if self.region is not None else (len(self.regions), -1 - self.solve_no),
+                "fn": fr.fn["qn"]}
+        self.solver_calls.append(call)
+        for i in range(n):
+            symdom.SElem(arr, p.off + i, self, site).set(Lin.var(("y", arr.name, p.off + i, self.solve_no)))
+        return None
+
     # ------------------------------------------------------------ calls
     def call(self, e, fr):
         it = self.interp
         k = e["k"]
+        if k == "OpCall" and e["op"] == "[]" and len(e["args"]) == 2:
+            b = it.rvalue(e["args"][0], fr)
+            if isinstance(b, ObjVec):
+                i = it.rvalue(e["args"][1], fr)
+                if not (0 <= i < len(b.items)):
+                    self.oob.append((b.name, i, len(b.items), ir.locstr(e)))
+                    raise ThrowEx("vector index out of range", ir.locstr(e))
+                return b.items[i]
         if k == "Call" and "this" in e and e["this"] is not None:
             th = it.eval(e["this"], fr)
             th = th.get() if isinstance(th, Cell) else th
+            if isinstance(th, ObjVec):
+                m = strip_targs(e.get("callee", "")).rsplit("::", 1)[-1]
+                if m == "resize":
+                    n = it.rvalue(e["args"][0], fr)
+                    while len(th.items) < n:
+                        th.items.append(self.make_default(th.cls))
+                    del th.items[n:]
+                    return None
+                if m == "size":
+                    return len(th.items)
+            if isinstance(th, Obj) and th.cls in SOLVER_CLASSES and strip_targs(e.get("callee", "")).endswith("::solveInPlace"):
+                return self.solver_summary(th, "solveInPlace", [it.rvalue(a, fr) for a in e["args"]], e, fr)
             if isinstance(th, AbstractInput):
                 callee = e.get("callee", "")
                 m = callee.rsplit("::", 1)[-1]
